@@ -1095,6 +1095,25 @@ theorem C15_write_side_unlocked_duplicates :
     ∃ acts s, run false {} acts = some s ∧ s.written = [65] ∧ s.wire = [65, 65] :=
   ⟨[.write [65], .flushBegin false, .flushBegin true, .flushEnd false, .flushEnd true], _, rfl, by decide, by decide⟩
 
+/-- the peer's close never waits for the writer: with TryLock, whatever the peer has sent (its
+`<close/>`, acknowledgements, in any order and number) while the application sits in `Flush` holding
+the write lock and waiting for an acknowledgement, the serving goroutine handles every stanza, is
+never parked, the close is answered and the application's call returns -/
+theorem C15_peer_close_never_waits_for_writer (inbox : List Stanza) :
+    let s := serveRun true inbox.length { inbox := inbox }
+    s.inbox = [] ∧ s.serveParked = false ∧ (Stanza.close ∈ inbox → s.closeAnswered = true) ∧
+      (Stanza.ack ∈ inbox → s.appReturned = true) := by
+  have := serveRun_tryLock inbox { inbox := inbox } rfl rfl
+  exact ⟨this.1, this.2.1, fun h => this.2.2.1 (Or.inl h), fun h => this.2.2.2 (Or.inl h)⟩
+
+/-- negation witness (own mutation M2: `Lock` instead of `TryLock`): the close arrives before the
+acknowledgement the writer waits for; the serving goroutine parks on the write lock, the
+acknowledgement behind it is never delivered, nothing can move any more -/
+theorem C15_blocking_lock_deadlocks :
+    let s := serveRun false 8 { inbox := [.close, .ack] }
+    s.serveParked = true ∧ s.appInFlush = true ∧ s.closeAnswered = false ∧ s.appReturned = false ∧
+      s.inbox = [.ack] ∧ serveStep false s = none := by decide
+
 /-- REGENERATED FACT (lock discipline, not probeable): in package ibb every use of the write side of
 `Conn` — the field of type `*bufio.Writer` and the encoder's closer of type `func() error`, whatever
 they are called; the read-only `Size` / `Available` / `Buffered` excepted — is made while one and the
